@@ -568,10 +568,16 @@ def r6_continuation_prompt_pairing(ctx):
         # the text after the prompt: a slice that starts at the indentation (whole line) is right, a slice that starts at a constant column cuts text
         cuts = [d for d in ds if isinstance(d.value, ast.Subscript) and isinstance(d.value.slice, ast.Slice) and isinstance(d.value.slice.lower, ast.Constant)
                 and isinstance(d.value.slice.lower.value, int) and d.value.slice.lower.value > 0]
-        rep.ob('C18.R6', ctx.loc(f, st), ctx.src(st, 90), not cuts,
-               'the inserted prompt is followed by the whole text of the line' if not cuts else
-               'the text put after the inserted `... ` is `%s` = `%s`: the first %d characters of an un-prompted line (which has no prompt there) are cut off, so a line of a '
-               'triple-quoted string loses text in the stored and in the displayed source' % (tail.id, ctx.src(cuts[0].value), cuts[0].value.slice.lower.value), anchor=f.qualname)
+        # ... and it is the line WITHOUT its indentation (the indentation is already in front of the prompt): the raw line would repeat it
+        head_slices = [e for e in parts_[:idx[0]] if isinstance(e, ast.Subscript) and isinstance(e.slice, ast.Slice) and e.slice.lower is None and isinstance(e.value, ast.Name)]
+        raw = bool(head_slices) and tail.id == head_slices[0].value.id
+        ok_ = not cuts and not raw
+        rep.ob('C18.R6', ctx.loc(f, st), ctx.src(st, 90), ok_,
+               'the inserted prompt is followed by the whole text of the line' if ok_ else
+               ('the text put after the inserted `... ` is `%s` = `%s`: the first %d characters of an un-prompted line (which has no prompt there) are cut off, so a line of a '
+                'triple-quoted string loses text in the stored and in the displayed source' % (tail.id, ctx.src(cuts[0].value), cuts[0].value.slice.lower.value) if cuts else
+                'the text put after the inserted `... ` is the raw line `%s`, whose indentation was already placed in front of the prompt: every un-prompted line of a triple-quoted '
+                'string gains the indentation of the example a second time, so the string the doctest builds is not the one that was written' % tail.id), anchor=f.qualname)
     # the branch that accepts an un-prompted body line of an open triple-quoted string is live and does accept: it is reachable when constant
     # switches are taken into account, and from it the "bad indentation" raise cannot be reached before the line is yielded
     g = ctx.cfg(f)
@@ -653,6 +659,7 @@ DE = 'xdoctest/doctest_example.py'
 DP = 'xdoctest/doctest_part.py'
 US = 'xdoctest/utils/util_str.py'
 VARIANTS = [
+    fire('inserted-prompt-followed-by-the-raw-line', 'C18.R6', ('xdoctest/parser.py', "                        next_line = next_line[:state_indent] + '... ' + norm_line\n", "                        next_line = next_line[:state_indent] + '... ' + next_line\n")),
     fire('inserted-prompt-followed-by-the-cut-line', 'C18.R6', ('xdoctest/parser.py', "                        next_line = next_line[:state_indent] + '... ' + norm_line\n", "                        next_line = next_line[:state_indent] + '... ' + suffix\n")),
     fire('options-merged-after-the-numbering-was-computed', 'C18.R5', (DE, "        colored = self.config.getvalue('colored', colored)\n        partnos = self.config.getvalue('partnos')\n        offset_linenos = self.config.getvalue('offset_linenos', offset_linenos)\n\n        n_digits = None\n", '\n        n_digits = None\n'), (DE, '            n_digits = int(math.ceil(n_digits))\n\n        for part in self._parts:\n            part_text = part.format_part(', "            n_digits = int(math.ceil(n_digits))\n\n        colored = self.config.getvalue('colored', colored)\n        partnos = self.config.getvalue('partnos')\n        offset_linenos = self.config.getvalue('offset_linenos', offset_linenos)\n        for part in self._parts:\n            part_text = part.format_part(")),
     fire('format-src-default-is-an-explicit-value', 'C18.R5', (DE, "    def format_src(self, linenos=True, colored=None, want=True,\n                   offset_linenos=None, prefix=True):\n", "    def format_src(self, linenos=True, colored=None, want=True,\n                   offset_linenos=False, prefix=True):\n")),
